@@ -870,6 +870,19 @@ def corpus_cases(pid):
          + [{"txs": [dict(g, force=True)]} for g in (gaps[0], gaps[1], gaps[3], gaps[6],
                                                        T("nameupdate", 11, 3, name=200, dest=10, amount=str(AERGO)), gaps[8])],
          "gaps", cids={"100": [10, 1]}, ids=[1, 2, 3, 10, 11, 12, 30, 100])
+    # contract.Execute's own post-execution check "payer balance covers base + execution fee": the VM run
+    # COMPLETES (no transfers, storage written), the fee exceeds what the sender has left after the amount;
+    # pre-V2 (state-data fee regime, empty payload: the max-fee check covers the base fee only) and V2+.
+    # Expected: ERROR receipt (fee charged on the pre-tx balance, nonce), amount not moved, NO storage write; or
+    # rejected when even the pre-tx balance cannot pay
+    for ver in (0, 2, 4):
+        case("exec", [{"no": 5, "validator": False, "txs": [dict(T("deploy", 10, 1, amount=str(AERGO), plen=10, cid=100), vm=vmok(0))]},
+                      {"no": 6, "validator": False, "txs": [
+                          dict(T("call", 12, 1, to=100, plen=0, amount=str(24 * 10 ** 15)), vm={"res": "ok", "fee": str(5 * 10 ** 15), "transfers": [], "writes": [[1, 9]]}),
+                          dict(T("call", 12, 2, to=100, plen=0), vm={"res": "ok", "fee": str(50 * 10 ** 15), "transfers": [], "writes": [[2, 7]]}),
+                          dict(T("call", 12, 2, to=100, plen=0, amount="1"), vm={"res": "ok", "fee": "0", "transfers": [], "writes": [[3, 1]]})]}],
+             "feecheck", version=ver, fund=[["10", str(30000 * AERGO)], ["12", str(3 * 10 ** 16)]], cids={"100": [10, 1]},
+             ids=[1, 2, 3, 10, 11, 12, 30, 100], ckeys=[[100, 1], [100, 2], [100, 3]])
     # resetAccount must work on a FRESH copy of the old state: the sender already wrote its account earlier in
     # the block; a FEEDELEGATION call with an amount fails at run time with a fee larger than the contract's
     # balance -> sender reset is written, receiver reset fails -> the tx is REJECTED and the rollback must
